@@ -201,10 +201,16 @@ pub fn fidelity(property: &str, seed: u64, tier: Tier, n: u64, real_bin: &Path, 
         inv.fresh_out = true;
         inv.src_age = 0;
         inv.knobs = crate::ctx::Knobs::shipped();
+        inv.obstacle = 0;
         if inv.out_sub == super::exec::BARE {
             inv.out_sub.clear();
         }
         let tree = &case.versions[inv.version.min(case.versions.len() - 1)];
+        // same-named items in one namespace are emitted in arrival order (known finding): the real
+        // binary's uncontrolled schedule may legitimately order them differently
+        if has_duplicate_names(tree, &inv.mode) {
+            continue;
+        }
         let out = sc.out();
         let sim = run_invocation(&mut sc, tree, &inv, &out);
         if !matches!(sim.class, ResultClass::Ok | ResultClass::Err) {
